@@ -12,7 +12,7 @@ Line-protocol driver for C02.  The SAME op file is read by the native C driver
     lpm <slot> <nk> {<plen>:<32hex>}*nk      lpm_array_map[slot] as dumped from the real kernel map
     lpmdel <slot>
     rset <n> {<idx>:<48hex>}*n               routing_map entries as dumped from the real kernel map
-    instcheck                                installedB on the dumped maps   -> ok | not-installed …
+    instcheck                                installedB on the dumped maps (fields the kernel reads) -> ok | not-installed …
     meta <n>
     dom <32hex> <256hex> | domdel <32hex>
     pkt <64hex flag> <sport> <dport> <saddr> <daddr> <mac> <ubm 256hex | ->  -> k=<routeK> u=<matchU>[ NEQ]
@@ -179,7 +179,9 @@ def step (st : St) (line : String) : St × String :=
     else
       -- say which part fails
       let badRule := (List.range st.kp.length).find? fun i =>
-        st.maps.routing[i]? != (st.kp[i]?).map fun (k : KEntry) => encodeGo .little (k.rewrite st.start)
+        match st.maps.routing[i]?, st.kp[i]? with
+        | some img, some k => !readsAs img (k.rewrite st.start)
+        | _, _ => true
       let badTrie := (List.range st.tries.length).find? fun idx =>
         match st.maps.lpmAt (ringSlot st.start idx), st.tries[idx]? with
         | some keys, some t => !keysEquiv keys (t.map cidrToKey)
